@@ -370,6 +370,18 @@ class Gen:
         n_sub = 1 + self.t.draw(3, "sub-ops")
         bits = 0.0
         outer_refs = set()
+        if self.clifford_only and self.t.chance(1, 5, "sub-clifford-as-product?"):
+            # rotations that are not Clifford one by one but whose product is: the sub-circuit as a whole is a
+            # stabilizer operation, its contents are not (so a stabilizer simulator cannot run it, and
+            # whoever picks a simulator from has_stabilizer_effect must not pick one)
+            a = self._pick([1, 3, 5, -1], "split-angle")
+            tot = self._pick([4, 8, 12, 0], "split-total")
+            q = inner[0]
+            ops = [cirq.ry(math.pi / 8 * a).on(q), cirq.ry(math.pi / 8 * (tot - a)).on(q)]
+            self.features.add("subcircuit")
+            self.features.add("subcircuit-clifford-only-as-product")
+            return cirq.CircuitOperation(cirq.FrozenCircuit(ops), repetitions=1 + self.t.draw(2, "sub-reps"),
+                                         qubit_map={q: outer[0]})
         for _ in range(n_sub):
             can_ctl = self.allow_control and bool(local_keys or any(
                 ":" not in kk and kk not in ("u", "v") and len(dd) == 1 and dd[0] == 2
